@@ -1440,6 +1440,6 @@ def run(chk):
             elif res.get("text") != "--2.0" and (res.get("rc") != 0 or float(res.get("value", "nan")) != 2.0):
                 cx.violation("fmt:c:neg-of-negative-literal", f"C text `{res.get('text')}` of Neg(LiteralFloat(-2.0)) does not compile to 2.0", res)
     chk.notes["search_seconds"] = round(time.time() - t_start, 1)
-    chk.exhaustive = True
+    chk.notes["exhaustive_part"] = "depth-2 parent/child/position trees are enumerated completely; deeper trees and kernels are sampled"
     if not quick:
         chk.leanchecker(["FfcxProofs.C16"])
